@@ -225,7 +225,22 @@ def quiet():
 def uname(i):
     # deliberately NOT fixed width: u1 is a prefix/substring of u12, so id handling by substring or prefix
     # (manifest filtering, file naming) is exposed
-    return "u%d" % i
+    # every fourth id contains a dot ("s.6", "s.10": the same stem): an id is an opaque string, not a file name with an
+    # extension to be split off
+    return "s.%d" % i if i % 4 == 2 else "u%d" % i
+
+
+def unum(name):
+    """inverse of `uname`; ValueError for anything else"""
+    if name.startswith("s."):
+        i = int(name[2:])
+    elif name.startswith("u"):
+        i = int(name[1:])
+    else:
+        raise ValueError(name)
+    if uname(i) != name:
+        raise ValueError(name)
+    return i
 
 
 def signal_for(family, uid, chans, samples):
@@ -456,7 +471,7 @@ def run_kaldi(case, root, syntax=None):
         try:
             with kopen("ark:" + ark, "bm") as rd:
                 for k, v in rd.items():
-                    stored.append((int(k[1:]), np.array(v)))
+                    stored.append((unum(k), np.array(v)))
         except Exception as e:
             stored = "unreadable output table: %s" % type(e).__name__
     if durs is None:
@@ -707,7 +722,7 @@ def run_torch(case, root, syntax=None):
             outcome = "exit=%s" % rc
         except Exception as e:
             m = re.match(r"Utterance (\S+?):", str(e))
-            outcome = "raise=%s@%s" % (type(e).__name__, int(m.group(1)[1:]) if m else "?")
+            outcome = "raise=%s@%s" % (type(e).__name__, unum(m.group(1)) if m else "?")
             del e
     files = {}
     if os.path.isdir(out):
@@ -715,7 +730,7 @@ def run_torch(case, root, syntax=None):
             if fn.startswith(prefix) and fn.endswith(suffix):
                 key = fn[len(prefix):len(fn) - len(suffix)]
                 try:
-                    files[int(key[1:])] = torch.load(os.path.join(out, fn))
+                    files[unum(key)] = torch.load(os.path.join(out, fn))
                 except ValueError:
                     files[fn] = None
             else:
@@ -724,7 +739,7 @@ def run_torch(case, root, syntax=None):
     if man is not None:
         with open(man) as f:
             ls = [x.strip() for x in f]
-        appended = [int(x[1:]) for x in ls[len(case["manifest"]):]]
+        appended = [unum(x) for x in ls[len(case["manifest"]):]]
     shutil.rmtree(wd, ignore_errors=True)
     return dict(outcome=outcome, files=files, appended=appended)
 
@@ -1111,6 +1126,12 @@ def corpus():
         # library: unit on a zero-frame utterance (the repo's own test does this with 126 samples)
         dict(base_k, family="library", computer=fb, rate=8000, pres=[21], posts=[61, 63], seed=5,
              utts=[[1, 1, 400, 8000, True], [2, 1, 60, 8000, True], [3, 1, 900, 8000, True]]),
+        # a long recording (longer than 2**16 samples: whatever a stage processes in blocks, the blocks must join up) with
+        # pre-emphasis - the kaldi tool runs its pre-processors in place on a float64 buffer, the torch tool does not
+        dict(base_k, family="library", computer=fb, rate=8000, pres=[22], posts=[], seed=5,
+             utts=[[1, 1, 70001, 8000, True], [3, 1, 400, 8000, True]]),
+        dict(base_t, family="library", computer=fb, pres=[22], posts=[],
+             lines=[["u", 1, 1, 1, 70001, True, "npy"], ["u", 3, 1, 1, 500, True, "wav"]]),
         # torch: zero-frame utterance followed by others, with a post-processor that rejects empty input
         dict(base_t, family="library", computer=fb, posts=[63],
              lines=[["u", 1, 1, 1, 400, True, "npy"], ["u", 2, 1, 1, 60, True, "pt"], ["u", 3, 1, 1, 500, True, "wav"]]),
